@@ -683,4 +683,8 @@ class _ParamUpdater(Thread):
                     self._lock_pattern = pk.data[:1]
                     self.cf.send_packet(pk, expected_reply=(tuple(pk.data[:1])))
             else:
-                self.wait_lock.release()
+                try:
+                    self.wait_lock.release()
+                except RuntimeError:
+                    # Already released by close()
+                    pass
